@@ -127,10 +127,18 @@ class CallGen:
         v = self.var([n for n, _ in env])
         inner = [(n, c) for n, c in env if n != v] + [(v, elem)]
         if k < 0.85:
-            # First().method()
-            fu = ast.Call(func=attr(cu, "First"), args=[], keywords=[])
-            fx = ast.Call(func=attr(cx, "First"), args=[], keywords=[])
-            return self.method_call(fu, fx, elem, r.choice(["m0", "m1", "m2", "m3"]), env, depth)
+            # element of the collection: First(), [0], [-1], [computed index] - then a typed method call on it
+            # (a registered stream-collection class declares no subscripting, so only Iterable collections are indexed)
+            how = r.choice(["First", "First", "[0]", "[-1]", "[1 - 1]", "[2]"])
+            if how == "First" or cm.endswith("_reg"):
+                fu = ast.Call(func=attr(cu, "First"), args=[], keywords=[])
+                fx = ast.Call(func=attr(cx, "First"), args=[], keywords=[])
+            else:
+                idx = astx.parse_expr(how[1:-1])
+                fu = ast.Subscript(value=cu, slice=idx, ctx=ast.Load())
+                fx = ast.Subscript(value=cx, slice=astx.clone(idx), ctx=ast.Load())
+            meths = ["m0", "m1", "m2", "m3"] + (["dm", "dm"] if elem == "Jet" else [])
+            return self.method_call(fu, fx, elem, r.choice(meths), env, depth)
         # Where(...).Count()
         (bu, bx) = self.scalar(inner, depth + 1)
         wu = ast.Call(func=attr(cu, "Where"), args=[lam([v], ast.Compare(left=bu, ops=[ast.Gt()], comparators=[C(1)]))], keywords=[])
@@ -258,6 +266,11 @@ def shard_main(ctx):
         model = Model(mrnd)
         ds = DS(model.Event)
         for j in range(per_model):
+            if j == per_model // 2:
+                # history: two methods of classes that queries already used are declared again with other signatures
+                for cls in ("Jet", "Trk"):
+                    model.redefine_method(mrnd, cls, mrnd.choice(["m0", "m1", "m2", "m3"]))
+                ctx.count("methods-redefined-after-use", 2)
             rnd = random.Random((ctx.seed * 1000 + ctx.shard) * 100003 + i)
             try:
                 run_case(ctx, rnd, model, ds, i)
